@@ -361,6 +361,10 @@ class EditDistance(SequenceEdit):
                     assert len(self.edit_matrix) == len(self.to_seq) + 1
                     assert len(self.edit_matrix[0]) == len(self.from_seq) + 1
                     row, col = len(self.to_seq), len(self.from_seq)
+                    # The last cell is the only one that is not fully tightened while its diagonal is built;
+                    # its cost must be final before it is added to the total
+                    while self.edit_matrix[row][col].tighten_bounds():
+                        pass
                     while row > 0 or col > 0:
                         prev_row, prev_col, edit = self._best_match(row, col)
                         reversed_suffix.append(edit)
